@@ -100,7 +100,8 @@ PROFILES = {
                       dict(ids=["Sc1", "Sc2", "Sc3"], first=["simulate"], edits=["subtrace"], depth=2, n=(24, 300))]),
     "C35": dict(own=["mask.equiv", "mask.run", "gen.agree", "gen.weight", "upd.constrained", "upd.kept", "upd.weight", "run"],
                 gens=[dict(ids=[x for x in FAST if x not in ("SwXY", "Sw3", "SSw", "OrE", "MixE")], first=["generatemask"], edits=["updatemask", "updatemask", "update"], depth=2, n=(128, 2400)),
-                      dict(ids=["Sc1", "Sc2", "Acc"], first=["generatemask"], edits=["updatemask"], depth=1, n=(24, 300))]),
+                      dict(ids=["Sc1", "Sc2", "Acc"], first=["generatemask"], edits=["updatemask"], depth=1, n=(24, 300)),
+                      dict(ids=["SSw", "MixE"], first=["generatemask"], edits=["updatemask", "updatemask"], depth=2, n=(32, 300))]),   # a masked constraint on the site that feeds a switch index
     "C38": dict(own=["derived.run", "derived.same", "empty.identity", "static.others", "upd.constrained", "upd.args", "nochange"] + TRC,
                 gens=[dict(ids=FAST + ["SNest", "SNest2", "SNest2", "SDm", "SSw", "SVm", "STup3"], first=["simulate", "generate"], edits=["update", "regenerate", "empty", "empty", "staticreq", "staticreq", "diffannotate"], depth=3, n=(128, 2400)),
                       dict(ids=SLOW, first=["simulate", "generate"], edits=["update", "empty"], depth=1, n=(24, 400))]),
